@@ -641,6 +641,70 @@ func (w *World) GetLimited(o *Obj, instance string, max int, asProto bool) {
 	w.classifyReadErr("Get", o, instance, err, failsBefore)
 }
 
+// WithWriterQueued runs op (a Get / FindMissing / composite read made by the
+// caller through the World) so that another client's upload of a block-sized
+// object queues for the store's WRITE lock while op is inside its first,
+// read-locked section: Go's RWMutex then lets that upload allocate (and
+// usually rotate) right after op's RUnlock and before op's own Lock, i.e.
+// exactly in the window between the read-locked and the write-locked section
+// of a refreshing read. The upload runs on its own goroutine outside the
+// scheduler and is recorded in the model afterwards. fired reports whether
+// the window was hit. Only for stores without injected faults.
+func (w *World) WithWriterQueued(op func()) (fired bool) {
+	w.FinishPendingFM()
+	var o *Obj
+	var data []byte
+	done := make(chan error, 1)
+	w.St.LockMon.ArmOnReadLockedGet(func() {
+		fired = true
+		// (the hook runs on the caller's goroutine, inside op)
+		var b buffer.Buffer
+		if w.Cfg.Mutable {
+			o = w.NewACObject()
+			data = w.ACContent(w.Cfg.BlockSize())
+			b = buffer.NewProtoBufferFromReader(&remoteexecution.ActionResult{}, io.NopCloser(bytes.NewReader(data)), buffer.UserProvided)
+		} else {
+			o = w.NewObject(w.Cfg.BlockSize(), Functions[0])
+			data = o.Data
+			b = buffer.NewCASBufferFromByteSlice(o.Digest(""), data, buffer.UserProvided)
+		}
+		d := o.Digest("")
+		go func() {
+			done <- w.St.BA.Put(w.Ctx, d, b)
+		}()
+		// Wait until the writer is queued on the lock (the caller holds
+		// the read lock, so the upload cannot get past its allocation).
+		for i := 0; i < 200000; i++ {
+			if !w.St.Lock.TryRLock() {
+				return
+			}
+			w.St.Lock.RUnlock()
+			runtime.Gosched()
+		}
+	})
+	op()
+	w.St.LockMon.ArmOnReadLockedGet(nil)
+	if !fired {
+		return false
+	}
+	err := <-done
+	u := &Upload{N: len(w.Uploads), Obj: o, Instance: "", Data: data, Variant: "good", SharedSectorWith: -1,
+		StartSeq: w.St.Media.Log.Len(), NewBlocksAtStart: w.St.Alloc.NewBlockCalls, PopFrontsAtStart: w.St.BL.PopFronts}
+	w.Uploads = append(w.Uploads, u)
+	key := w.ModelKey(o, "")
+	w.attempted[key] = append(w.attempted[key], u)
+	if err == nil {
+		u.State = "acked"
+		w.acked[key] = append(w.acked[key], u)
+		w.logf("put#%d (second client, queued on the write lock during the read-locked section) obj=%d size=%d acked", u.N, o.ID, len(data))
+	} else {
+		u.State = "failed"
+		u.Err = err
+		w.logf("put#%d (second client, queued on the write lock) failed: %v", u.N, err)
+	}
+	return true
+}
+
 // GetBadOffset reads with an out-of-domain offset: off < 0 is used as is,
 // off > 0 is added to the object's size. Whatever the consumer gets back
 // (an error, or an empty result) is not judged here (C09 owns that); bytes
